@@ -975,7 +975,11 @@ class DesignSpace:
             )
 
         if normalize:
-            if self.__has_current_value and not len(self.__norm_current_value_array):
+            # The normalized current value depends on the bounds too.
+            if self.__has_current_value and (
+                not self.__norm_data_is_computed
+                or not len(self.__norm_current_value_array)
+            ):
                 self.__norm_current_value_array = self.normalize_vect(
                     self.__current_value_array,
                 )
@@ -1954,6 +1958,10 @@ class DesignSpace:
         """Cast the current value to complex."""
         for name, val in self.__current_value.items():
             self.__current_value[name] = array(val, dtype=complex128)
+
+        # The cached arrays and the common data type depend on the current value.
+        self.__update_current_metadata()
+        self.__norm_data_is_computed = False
 
     @classmethod
     def from_file(
